@@ -45,6 +45,21 @@ class BuiltinMixin:
         return mk_int(py_len(v))
 
     def _minmax(self, args, is_min):
+        if len(args) == 1 and isinstance(args[0].t, TList) and args[0].t.elem is TInt:
+            # min / max of a list of numbers: ValueError on an empty list; otherwise a member that bounds all members
+            from . import lists as L
+            lst = args[0]
+            n = L.l_len(lst.t, lst.z)
+            if not self.spec_mode:
+                self.need(n > 0, 'ValueError')
+            r = z3.Int(fresh_name('min' if is_min else 'max'))
+            k = z3.Int(fresh_name('at'))
+            i = z3.Int('mm_i')
+            sel = L.l_get(lst.t, lst.z, i)
+            self.assume(z3.And(k >= 0, k < n, L.l_get(lst.t, lst.z, k) == r))
+            self.assume(z3.ForAll([i], z3.Implies(z3.And(i >= 0, i < n), (sel >= r) if is_min else (sel <= r)),
+                                  patterns=[sel]))
+            return mk_int(r)
         if len(args) == 1:
             raise Unsupported('min/max of iterable')
         cur = args[0]
